@@ -15,6 +15,12 @@ WALK_KINDS = ["int32", "octets", "oid", "ipaddr", "counter32", "gauge32", "timet
 def walk_mib(rng):
     """MIB with multi-octet arcs, siblings sharing byte prefixes, rows before and after."""
     base = gen.oid(rng, prefix=(1, 3, 6, 1), min_extra=0, max_extra=3, small=0.5)
+    top = None
+    if rng.random() < 0.2:
+        # subtrees elsewhere in the tree: under 0, under 1.x, under 2.x (x <= 39: what the API accepts);
+        # the rows that follow 2.39.* are 2.40 and beyond (first subidentifier 120 and more)
+        top = rng.choice([(0, 0), (0, 39), (1, 0), (1, 2), (1, 39), (2, 0), (2, 5), (2, 39)])
+        base = gen.oid(rng, prefix=top, min_extra=0, max_extra=2, small=0.5)
     rows = {}
     n = rng.choice([0, 1, 2, 5, 12, 30])
     for _ in range(n):
@@ -27,9 +33,14 @@ def walk_mib(rng):
             o = base[:-1] + (sib & 0xFFFFFFFF,) + tuple(gen.arc(rng) for _ in range(rng.randint(0, 2)))
         elif r < 0.9:
             o = base  # the base itself as a leaf
+        elif top is not None:
+            # neighbours of the top-level arcs
+            first = rng.choice([top[0], top[0], max(0, top[0] - 1), min(2, top[0] + 1)])
+            second = gen.second_arc_under_2(rng) if first == 2 and rng.random() < 0.6 else rng.choice([0, top[1], max(0, top[1] - 1), min(39, top[1] + 1), 39])
+            o = (first, second) + tuple(gen.arc(rng) for _ in range(rng.randint(0, 3)))
         else:
             o = gen.oid(rng, prefix=(1, 3), min_extra=1, max_extra=5)
-        if len(o) >= 2:
+        if len(o) >= 2 and (o[0] == 2 or o[1] <= 39) and 80 + o[1] < 2**32:
             rows[o] = gen.value(rng, WALK_KINDS)
     return base, [[gen.oid_text(o), v] for o, v in sorted(rows.items())]
 
@@ -83,6 +94,9 @@ class C05(Prop):
             base = ber.parse_oid_text(rows[-1][0])[:-1] or base  # last subtree
         if len(base) < 2:
             base = (1, 3)
+        if base[1] > 39:
+            # the API may refuse a second arc beyond 39 (C08 leaves that open): walk the neighbourhood instead
+            base = (base[0], 39)
         level = rng.choice(gen.SEC_LEVELS)
         a3, s3 = v3_setup(rng, level, discover=False, ktypes=["localized", "master"])
         comm = rng.choice(["public", "c0"])
